@@ -222,8 +222,6 @@ View == <<SA, SB, SC, lane, mon, phys, natt, budget>>
 Edge == PrintT(<<"EDGE", ToJson([h |-> hist', x |-> obs'])>>)
 PanicProbe == SA.K.L.panic = "" \/ PrintT(<<"PANIC", ToJson([h |-> hist, site |-> SA.K.L.panic])>>)
 MonProbe == mon.err = "" \/ PrintT(<<"MONERR", ToJson([h |-> hist, err |-> mon.err])>>)
-\* vacuity: states in which lane C is being compared / a reload was applied with keys physically held
-SyncProbe == lane.c # "on" \/ natt = 0 \/ TRUE
 ====
 '''
 
